@@ -31,7 +31,7 @@ PROPS = {
         level_text='Deductive proof, for all segment lists, offsets and strings, that push/merge keep the origin map a tiling of the output text recording exactly the range handed in, that origin()/get_origin return the containing segment\'s (file, offset) or None, and that every emission site of the preprocessor hands in the range of the text it copies. A change that records a wrong range, loses a segment or breaks the lookup fails a named postcondition.',
         level_note='Assumed: std BTreeMap search behaviour under the non-lawful Ord (probe precondition proved), String/Path shims, the dispatch loop of preprocess_str, Verus+z3. See evidence.assumptions.',
         not_covered=[
-            'the dispatch loop of preprocess_str (A-glue)',
+            'that the arm contracts compose, over the event sequence, to one statement about the whole output (unit glue proves the loop keeps every arm precondition and the text well formed; it has no functional specification of the whole run)',
             'PreprocessedText::text() (String -> &str deref is shimmed away)',
             'that Locate values found in the pp tree tile the source (that is C01/G-faithful for the pp grammar)',
         ],
@@ -67,7 +67,7 @@ PROPS['C18'] = dict(
     technique='contract-based deductive verification (Verus): flag forwarding on the recursion skeleton and at the entry wrappers; arm-guard obligations on the lifted match arms',
     level_text='Deductive proof that strip_comments is forwarded unchanged at every recursive call site and entry wrapper (all four recursion sites, both flags kept apart by parameter name), and that only comment arms depend on the flag.',
     level_note='Partial: equality of token sequences, define tables and errors between the two modes is a relation between two runs and is not decided (a comment that is the only separator, K6, is re-demonstrated by replay only).',
-    not_covered=['token-level equality between the two modes (K6)', 'the dispatch loop (A-glue)'],
+    not_covered=['token-level equality between the two modes (K6)', 'composition of the arm contracts over the event sequence (A-glue)'],
 )
 
 PROPS['C16'] = dict(
@@ -90,7 +90,7 @@ PROPS['C04'] = dict(
     technique='contract-based deductive verification (Verus) of the verbatim IfdefDirective / IfndefDirective arms against an IEEE 22.6 selection spec function, loop invariant over the `elsif chain',
     level_text='Deductive proof, for every chain length, every define table and every combination of condition outcomes, that on entering `ifdef/`ifndef the arm puts on the skip list the directive keywords, the identifiers and every group except the one IEEE 1800-2017 22.6 selects (first branch whose name is defined, `else if none); table mutations happen only in arms of the same match (un-skipped events).',
     level_note=ARMS_NOTE + ' Two call sites are genuinely wrong for predefined names in `elsif position and are listed as known findings; the clause for chains without predefined `elsif names must verify.',
-    not_covered=['that the event loop as a whole skips exactly the subtrees of listed nodes (the toggle arms and the position of `if skip { continue; }` are checked; the composition over the event sequence is A-glue + C16)', 'token-for-token equality of the surviving text'],
+    not_covered=['that the event loop as a whole skips exactly the subtrees of listed nodes (the toggle arms, the initial skip state and the position of `if skip { continue; }` are checked; the composition over the event sequence needs C16 and is not stated as one theorem)', 'token-for-token equality of the surviving text'],
 )
 PROPS['C05'] = dict(
     title='macro expansion',
@@ -120,7 +120,7 @@ PROPS['C10'] = dict(
     technique='contract-based deductive verification (Verus) of the verbatim IncludeCompilerDirective arm incl. the include-path search loop; nested preprocessing as an uninterpreted function of named parameters',
     level_text='Deductive proof for any number and order of include paths that the file used is the given path when absolute or existing, else the first include path that contains it, else the given path; that the nested run receives the live define table, ignore_include=false, include_depth+1, that its table is adopted and its text/origins merged, that errors are wrapped once in Include, that a same-line item yields IncludeLine, and that the arm fires iff !ignore_include.',
     level_note=ARMS_NOTE + ' The ghost file system is constant during a call. Partial: file-name extraction is string trimming over uninterpreted functions.',
-    not_covered=['file-name extraction semantics of trim_matches etc.', 'composition of the same-line arms over the event sequence (each arm is proved; the loop is A-glue)', 'ignore_include: that a literal directive contributes no tokens'],
+    not_covered=['file-name extraction semantics of trim_matches etc.', 'composition of the same-line arms over the event sequence (each arm is proved; unit glue proves the loop establishes their preconditions, not a whole-run statement)', 'ignore_include: that a literal directive contributes no tokens'],
 )
 PROPS['C11'] = dict(
     title='define table',
@@ -163,8 +163,8 @@ PROPS['C13'] = dict(
     engines=[dict(module='gvc.engine', args=dict(analyses=('ident', 'faithful'))), REPLAY],
     shims=['A-nom', 'A-packrat'],
     design='DESIGN.md 3/C13',
-    technique='generated obligations on the identifier lexers and the keyword tables of the real parser sources (construction sites, keyword check, version -> table mapping, begin/end pairing on every path)',
-    level_text='Every construction site of SimpleIdentifier/CIdentifier takes its Locate from a lexer of the form "whole word; if is_keyword(word) fail"; is_keyword selects the identically named table for each version and the 1800-2017 table for the empty stack and tests exact membership; begin_keywords maps each specifier to the same-named version and version_specifier passes the literal it matched; keyword(t) requires a word boundary; begin/end of the directive keyword set are paired on every path including every ? exit.',
+    technique='Verus contracts on the keyword-version stack and is_keyword (unit kwstack); generated obligations on the identifier lexers and the keyword tables of the real parser sources (construction sites, keyword check, table contents against the reference lists, begin/end pairing on every path)',
+    level_text='Every construction site of SimpleIdentifier/CIdentifier takes its Locate from a lexer of the form "whole word; if is_keyword(word) fail"; unit kwstack (Verus, bodies verbatim with the two thread-locals as explicit parameters): begin_keywords pushes exactly the version its specifier names (IEEE 22.14), end_keywords pops exactly one, is_keyword(w) is membership of w in the table of the innermost open region and in the 1800-2017 table outside every region; version_specifier passes the literal it matched; keyword(t) requires a word boundary; begin/end of the directive keyword set are paired on every path including every ? exit.',
     level_note=GVC_NOTE + ' Assumed, not proved: under backtracking and memo hits the version stack equals the open `begin_keywords regions (known to break under eviction: K8).',
     not_covered=['A-version-stack (K7/K8)', 'contents of the keyword tables against the standards'],
 )
